@@ -35,95 +35,9 @@ func init() {
 	})
 }
 
-func genProjection(r *fw.Rand, d bson.D) bson.D {
-	var paths []string
-	for _, p := range gen.PathsOf(d) {
-		if r.Chance(1, 8) || !hasNumericSeg(p) {
-			paths = append(paths, p)
-		}
-	}
-	flag := func(inc bool) interface{} {
-		if inc {
-			return fw.Pick(r, []interface{}{int32(1), true, int64(1), 1.0, int32(1)})
-		}
-		return fw.Pick(r, []interface{}{int32(0), false, int64(0), 0.0, int32(0)})
-	}
-	mode := r.Intn(10) // 0-4 inclusion, 5-7 exclusion, 8 operators only, 9 mixed (must be rejected)
-	n := r.Intn(3) + 1
-	p := bson.D{}
-	used := map[string]bool{}
-	for i := 0; i < n; i++ {
-		path := fw.Pick(r, paths)
-		if used[path] {
-			continue
-		}
-		used[path] = true
-		v := ref.GetPath(d, path)
-		arr, isArr := v.(bson.A)
-		if isArr && r.Chance(1, 2) || mode == 8 {
-			if r.Chance(2, 3) || !isArr || len(arr) == 0 {
-				switch r.Intn(3) {
-				case 0:
-					p = append(p, bson.E{Key: path, Value: bson.D{{Key: "$slice", Value: fw.Pick(r, []interface{}{int32(1), int32(2), int32(-1), int32(-2), int64(3), int32(0), int32(100), int32(-100), 2.0})}}})
-				default:
-					p = append(p, bson.E{Key: path, Value: bson.D{{Key: "$slice", Value: bson.A{
-						fw.Pick(r, []interface{}{int32(0), int32(1), int32(-1), int32(-2), int64(2), int32(50), int32(-50), 1.0}),
-						fw.Pick(r, []interface{}{int32(1), int32(2), int64(3), int32(100), 1.0})}}}})
-				}
-			} else {
-				el := arr[r.Intn(len(arr))]
-				g := gen.NewFilterGen(r, gen.FilterOpts{Pool: gen.Core, MaxDepth: 2, NoSchema: true}, d)
-				var q bson.D
-				if ed, ok := el.(bson.D); ok && len(ed) > 0 {
-					f := ed[r.Intn(len(ed))]
-					q = bson.D{{Key: f.Key, Value: f.Value}}
-					if r.Chance(1, 3) {
-						q = bson.D{{Key: f.Key, Value: bson.D{{Key: "$gte", Value: f.Value}}}}
-					}
-					if r.Chance(1, 6) {
-						q = bson.D{{Key: f.Key, Value: nil}}
-					}
-				} else {
-					q = bson.D{{Key: fw.Pick(r, []string{"$eq", "$gte", "$lte", "$ne"}), Value: g.Operand()}}
-					if r.Bool() {
-						q = bson.D{{Key: "$eq", Value: el}}
-					}
-					if r.Chance(1, 8) {
-						q = bson.D{{Key: fw.Pick(r, gen.Keys), Value: nil}}
-					}
-				}
-				p = append(p, bson.E{Key: path, Value: bson.D{{Key: "$elemMatch", Value: q}}})
-			}
-			continue
-		}
-		switch {
-		case mode <= 4:
-			p = append(p, bson.E{Key: path, Value: flag(true)})
-		case mode <= 7:
-			p = append(p, bson.E{Key: path, Value: flag(false)})
-		default:
-			p = append(p, bson.E{Key: path, Value: flag(i%2 == 0)})
-		}
-	}
-	if r.Chance(1, 4) {
-		p = append(p, bson.E{Key: "_id", Value: flag(false)})
-	} else if r.Chance(1, 10) && mode <= 4 {
-		p = append(p, bson.E{Key: "_id", Value: flag(true)})
-	}
-	if len(p) == 0 {
-		p = append(p, bson.E{Key: fw.Pick(r, gen.Keys), Value: flag(mode <= 4)})
-	}
-	return p
-}
+func genProjection(r *fw.Rand, d bson.D) bson.D { return gen.Projection(r, d, gen.ProjOpts{}) }
 
-func hasNumericSeg(p string) bool {
-	for _, s := range strings.Split(p, ".") {
-		if s != "" && s[0] >= '0' && s[0] <= '9' {
-			return true
-		}
-	}
-	return false
-}
+func hasNumericSeg(p string) bool { return gen.HasNumericSeg(p) }
 
 func runC14(c *fw.Ctx) {
 	ncases := c.N(16000, 640000) / c.NBatches
